@@ -47,6 +47,12 @@ let o_helo (arg : n list) : bool =
   let t = trim s in
   t <> "" && not (String.contains t ' ')
 
+(* local parts: a dot-string of atext, or one quoted string of atext / brackets (what the generator uses) *)
+let local_ok (l : string) =
+  let n = String.length l in
+  (l <> "" && String.for_all is_atext l)
+  || (n >= 3 && l.[0] = '"' && l.[n - 1] = '"'
+      && String.for_all (fun c -> is_atext c || c = '[' || c = ']') (String.sub l 1 (n - 2)))
 let o_addr (is_rcpt : bool) (arg : n list) : ap_result =
   let s = str_of_bytes arg in
   let rec skip i = if i < String.length s && s.[i] = ' ' then skip (i + 1) else i in
@@ -55,7 +61,8 @@ let o_addr (is_rcpt : bool) (arg : n list) : ap_result =
   else match String.index_from_opt s i '>' with
     | None -> AP_syntax
     | Some j ->
-        let inner = String.sub s (i + 1) (j - i - 1) in
+        (* addrsyntax() lower-cases the whole address before anything else looks at it *)
+        let inner = String.lowercase_ascii (String.sub s (i + 1) (j - i - 1)) in
         let more = if j + 1 >= String.length s then None else Some (bytes_of_str (String.sub s (j + 1) (String.length s - j - 1))) in
         if inner = "" then (if is_rcpt then AP_syntax else AP_ok ([], more, RNotLocal))
         else match String.index_opt inner '@' with
@@ -67,7 +74,7 @@ let o_addr (is_rcpt : bool) (arg : n list) : ap_result =
               else if local <> "" && String.for_all is_atext local && is_rcpt && is_other_literal dom then
                 AP_nouser
               else
-              if local = "" || not (String.for_all is_atext local) || not (domain_ok dom) then AP_syntax
+              if not (local_ok local) || not (domain_ok dom) then AP_syntax
               else
                 let addr = bytes_of_str (local ^ "@" ^ dom) in
                 if dom = "example.org" then
@@ -103,6 +110,59 @@ let o_ext (more : n list) : ext_result =
       else Ext_enoexec in
   go 0 [] 0 0 None
 
+(* smtp_auth on the text behind "AUTH ": PLAIN with an initial response is decided here (canonical base64 only is generated;
+   the decoder and the exchange forms are property C09); the checkpassword stand-in accepts the password "secret",
+   crashes for the user "crash" *)
+let b64_decode (t : string) : string option =
+  let v c = match c with 'A'..'Z' -> Some (Char.code c - 65) | 'a'..'z' -> Some (Char.code c - 71) | '0'..'9' -> Some (Char.code c + 4)
+                       | '+' -> Some 62 | '/' -> Some 63 | _ -> None in
+  let n = String.length t in
+  if n mod 4 <> 0 then None else
+  let buf = Buffer.create n in
+  let ok = ref true in
+  let i = ref 0 in
+  while !ok && !i < n do
+    let q = String.sub t !i 4 in
+    let pad = if q.[3] = '=' then (if q.[2] = '=' then 2 else 1) else 0 in
+    if pad > 0 && !i + 4 <> n then ok := false
+    else begin
+      let vals = List.init (4 - pad) (fun k -> v q.[k]) in
+      if List.exists (fun x -> x = None) vals then ok := false
+      else begin
+        let vs = List.map (function Some x -> x | None -> 0) vals @ List.init pad (fun _ -> 0) in
+        let w = List.fold_left (fun a x -> a * 64 + x) 0 vs in
+        Buffer.add_char buf (Char.chr ((w lsr 16) land 255));
+        if pad < 2 then Buffer.add_char buf (Char.chr ((w lsr 8) land 255));
+        if pad < 1 then Buffer.add_char buf (Char.chr (w land 255))
+      end
+    end;
+    i := !i + 4
+  done;
+  if !ok then Some (Buffer.contents buf) else None
+
+let o_auth (arg : n list) : auth_result =
+  let s = str_of_bytes arg in
+  let up = String.uppercase_ascii s in
+  let mech m = starts_with up m && (String.length s = String.length m || s.[String.length m] = ' ') in
+  if mech "PLAIN" then begin
+    if String.length s <= 6 then Auth_multi      (* "AUTH PLAIN" alone: 334, the response comes in the next line *)
+    else match b64_decode (String.sub s 6 (String.length s - 6)) with
+      | None -> Auth_done (n_of_int 501)
+      | Some d ->
+          (* authorize-id NUL user NUL password, as auth_plain() walks it *)
+          let len = String.length d in
+          let cstr i = if i >= len then "" else (match String.index_from_opt d i '\000' with Some j -> String.sub d i (j - i) | None -> String.sub d i (len - i)) in
+          let id = String.length (cstr 0) + 1 in
+          let user = if len > id then cstr id else "" in
+          let pass = if user <> "" && len > id + String.length user + 1 then cstr (id + String.length user + 1) else "" in
+          if user = "" || pass = "" then Auth_done (n_of_int 501)
+          else if user = "crash" then Auth_done (n_of_int 454)
+          else if pass = "secret" then Auth_ok (bytes_of_str user)
+          else Auth_done (n_of_int 535)
+  end
+  else if mech "LOGIN" then Auth_multi
+  else Auth_done (n_of_int 504)
+
 let make_oracles cfg : oracles =
   let relay = cfg "relay" "none" and ip = cfg "ip" "v4" in
   let plan = List.filter (fun x -> x <> "") (String.split_on_char ',' (cfg "qq" "")) in
@@ -131,11 +191,13 @@ let make_oracles cfg : oracles =
     o_databytes = n_of_int (int_of_string (cfg "databytes" "0"));
     o_liphost = bytes_of_str "mail.example.org";
     o_check2822 = (cfg "check2822" "0" = "1");
+    o_authperm = (cfg "auth" "0" = "1");
+    o_auth = o_auth;
     (* the trace header is the extracted model of write_received() / spfreceived(SPF_NONE) *)
-    o_trace = (fun helo from esmtp first relayclient ->
+    o_trace = (fun authname helo from esmtp first relayclient ->
         trace_header
           { t_remotehost = []; t_authhide = false; t_remoteip = bytes_of_str remoteip; t_remoteport = Some (bytes_of_str "1234");
-            t_helostr = helo; t_authname = []; t_tlsclient = None; t_remoteinfo = None;
+            t_helostr = helo; t_authname = authname; t_tlsclient = None; t_remoteinfo = None;
             t_heloname = bytes_of_str "mail.example.org"; t_version = bytes_of_str "Qsmtpd 0.39dev";
             t_esmtp = esmtp; t_cipher = None; t_chunked = false; t_first = first; t_date = bytes_of_str (String.make 31 'D') }
           from (int_of_n relayclient = 1)) }
@@ -196,6 +258,7 @@ let spec_session cfgs chunks obs =
     let emit l = evs := !evs @ l in
     let k = ref 0 in
     let limits_bad = ref false in
+    let auth_bad = ref false in
     let content_bad = ref false in
     let rec go = function
       | [] -> ()
@@ -206,7 +269,9 @@ let spec_session cfgs chunks obs =
           let r = next () in
           let rep = Reply (n_of_int r) in
           if starts_with u "HELO " || starts_with u "EHLO " then
-            (if r = 250 then emit [Note NBoundary; Note NHelo; rep] else raise Not_simple; go rest)
+            ((if r = 250 then emit [Note NBoundary; Note NHelo; Note (NEsmtp (starts_with u "EHLO ")); rep]
+              else emit [Note NBoundary; rep]);      (* a refused greeting still drops the transaction (freedata() comes first) *)
+             go rest)
           else if starts_with u "MAIL FROM:" then begin
             (if r / 100 = 2 then
                (match o_addr false (bytes_of_str (String.sub line 10 (String.length line - 10))) with
@@ -242,6 +307,13 @@ let spec_session cfgs chunks obs =
                    go rest'
                | [] -> ())
             end else (emit [rep]; go rest) end
+          else if starts_with u "AUTH " then begin
+            (* a 235 means "authenticated"; the name is the oracle's (the reply does not carry it) *)
+            (if r = 235 then
+               (match o_auth (bytes_of_str (String.sub line 5 (String.length line - 5))) with
+                | Auth_ok nm when o.o_authperm -> emit [Note (NAuth nm); rep]
+                | _ -> auth_bad := true; emit [Note (NAuth (bytes_of_str "?")); rep])   (* 235 without a backend that said yes *)
+             else emit [rep]); go rest end
           else if u = "RSET" then (emit (if r = 250 then [Note NBoundary; rep] else [rep]); go rest)
           else if u = "QUIT" then (emit [rep; Closed]; if rest <> [] then raise Not_simple)
           else if u = "NOOP" || starts_with u "VRFY" then (emit [rep]; go rest)
@@ -250,6 +322,7 @@ let spec_session cfgs chunks obs =
     let bad = ref [] in
     if !hs <> [] then bad := "handoff-without-250" :: !bad;
     if !limits_bad then bad := "limits" :: !bad;
+    if !auth_bad then bad := "auth" :: !bad;
     if !content_bad then bad := "message" :: !bad;
     (match trace_run o !evs a_init with None -> bad := "trace" :: !bad | Some _ -> ());
     (match queue_run o !evs QIdle with None -> bad := "queue" :: !bad | Some _ -> ());
